@@ -1,5 +1,8 @@
 #!/bin/bash
 # usage: tryseed.sh <seed> <prop>... : applies the seeded patch to /repo, runs the checks, reverts
+# evidence files are rewritten by every check run: keep the clean-tree evidence and put it back at the end
+rm -rf /var/tmp/evidence.keep && cp -r /verif/evidence /var/tmp/evidence.keep
+trap 'rm -rf /verif/evidence && cp -r /var/tmp/evidence.keep /verif/evidence && rm -rf /var/tmp/evidence.keep' EXIT
 S=/verif/seeded/$1; shift
 cd /repo && git diff --quiet || { echo "repo dirty"; exit 2; }
 git apply $S/patch.diff || exit 2
